@@ -816,7 +816,9 @@ class Dict(dict, base.Symbolic, pg_typing.CustomTyping):
       self._detach(old_value)
 
     if value_spec:
-      with flags.notify_on_change(False):
+      # Re-applying the schema fills in the defaults through item assignment,
+      # which is part of `clear` and not an accessor write of the caller.
+      with flags.notify_on_change(False), flags.allow_writable_accessors(True):
         self.use_value_spec(value_spec, self._allow_partial)
 
     if flags.is_change_notification_enabled():
